@@ -421,7 +421,39 @@ func (m *Machine) Branch(c *Term) bool {
 }
 
 // Concretize forks over the feasible values of t, returning one per path.
-func (m *Machine) Concretize(t *Term, what string) uint64 {
+func (m *Machine) Concretize(t *Term, what string) uint64 { return m.concretize(t, what, false) }
+
+// ConcretizeLen is Concretize for allocation/loop lengths: the first LenClassK
+// feasible values are explored individually; all remaining values are
+// represented by (a) the largest feasible non-negative value and (b) the
+// largest feasible value overall (negative when read as signed). This is a
+// stated abstraction of the length axis, recorded in the evidence bounds.
+func (m *Machine) ConcretizeLen(t *Term, what string) uint64 { return m.concretize(t, what, true) }
+
+const LenClassK = 6
+
+func (m *Machine) maxFeasible(t *Term, upper uint64) (uint64, bool) {
+	// largest v <= upper with pc && t == v satisfiable (unsigned order)
+	w := t.W
+	if m.feasible(Ule(t, Const(w, upper))) != Sat {
+		return 0, false
+	}
+	lo, hi := uint64(0), upper
+	for lo < hi {
+		mid := lo + (hi-lo+1)/2
+		r := m.feasible(And(Ule(Const(w, mid), t), Ule(t, Const(w, upper))))
+		if r == Sat {
+			lo = mid
+		} else if r == Unsat {
+			hi = mid - 1
+		} else {
+			return lo, true
+		}
+	}
+	return lo, true
+}
+
+func (m *Machine) concretize(t *Term, what string, classes bool) uint64 {
 	if t.IsConst() {
 		return t.Val
 	}
@@ -445,23 +477,59 @@ func (m *Machine) Concretize(t *Term, what string) uint64 {
 			m.addPC(Not(eq))
 			continue
 		}
-		p.concCount[what]++
-		if p.concCount[what] > m.cfg.MaxConcretize {
-			panic(boundHit{fmt.Sprintf("more than %d values for %s", m.cfg.MaxConcretize, what)})
-		}
 		if len(p.decisions) >= m.cfg.MaxDecisions {
 			panic(boundHit{fmt.Sprintf("decision bound %d (unwinding)", m.cfg.MaxDecisions)})
 		}
-		r := m.S.Check()
-		if r != Sat {
-			panic(pathEnd{"infeasible at concretisation: " + r.String()})
+		var v uint64
+		forcedRep := false
+		if classes && p.concCount[what] >= LenClassK {
+			m.X.bounds["length classes"] = fmt.Sprintf("symbolic allocation/slice lengths: the first %d feasible values individually, the rest represented by the largest non-negative and the largest (unsigned) feasible value", LenClassK)
+			smax := mask(t.W) >> 1
+			if p.concCount[what] == LenClassK {
+				if mv, ok := m.maxFeasible(t, smax); ok {
+					v = mv
+				} else if mv, ok := m.maxFeasible(t, mask(t.W)); ok {
+					v, forcedRep = mv, true
+				} else {
+					panic(pathEnd{"infeasible at concretisation"})
+				}
+			} else {
+				mv, ok := m.maxFeasible(t, mask(t.W))
+				if !ok {
+					panic(pathEnd{"infeasible at concretisation"})
+				}
+				v, forcedRep = mv, true
+			}
+			if v <= smax && m.feasible(Ult(Const(t.W, smax), t)) != Sat {
+				forcedRep = true
+			}
+		} else {
+			p.concCount[what]++
+			if !classes && p.concCount[what] > m.cfg.MaxConcretize {
+				panic(boundHit{fmt.Sprintf("more than %d values for %s", m.cfg.MaxConcretize, what)})
+			}
+			r := m.S.Check()
+			if r != Sat {
+				panic(pathEnd{"infeasible at concretisation: " + r.String()})
+			}
+			bv, ok := m.S.Value(t)
+			if !ok {
+				panic(engineBug{"no model value for " + t.String()})
+			}
+			v = bv.Uint64()
+			if classes {
+				// prefer the smallest values first: ask for the minimum among the remaining
+				if mv, ok := m.minFeasible(t); ok {
+					v = mv
+				}
+			}
 		}
-		bv, ok := m.S.Value(t)
-		if !ok {
-			panic(engineBug{"no model value for " + t.String()})
-		}
-		v := bv.Uint64()
 		eq := Eq(t, Const(t.W, v))
+		if forcedRep {
+			p.decisions = append(p.decisions, Decision{Conc: true, Val: v, Taken: true, Forced: true})
+			m.addPC(eq)
+			return v
+		}
 		// is another value possible?
 		if m.feasible(Not(eq)) != Unsat {
 			alt := append(append([]Decision(nil), p.decisions...), Decision{Conc: true, Val: v, Taken: false})
@@ -473,6 +541,24 @@ func (m *Machine) Concretize(t *Term, what string) uint64 {
 		m.addPC(eq)
 		return v
 	}
+}
+
+// minFeasible: smallest feasible unsigned value of t.
+func (m *Machine) minFeasible(t *Term) (uint64, bool) {
+	w := t.W
+	lo, hi := uint64(0), mask(w)
+	for lo < hi {
+		mid := lo + (hi-lo)/2
+		r := m.feasible(Ule(t, Const(w, mid)))
+		if r == Sat {
+			hi = mid
+		} else if r == Unsat {
+			lo = mid + 1
+		} else {
+			return 0, false
+		}
+	}
+	return lo, true
 }
 
 // Assume restricts the path; infeasible ⇒ path ends.
